@@ -213,6 +213,7 @@ def check_case(seed, idx, rec):
             rec.violation('evaluate-raised-' + type(err).__name__,
                           f'{tag}: {err!r}', case)
             return
+    core.recheck_previous(PROP, rec, case, res, tag)
     size = int(np.prod(cas['shape'], dtype=int))
     nds = len(cas['others'])
     if oracles.size != nds * size:
@@ -376,4 +377,6 @@ def run(spec, rec):
 
 def replay(case, rec):
     warnings.simplefilter('ignore')
+    if case.get('previous') is not None:
+        check_case(case['seed'], case['previous'], core.Recorder())
     check_case(case['seed'], case['idx'], rec)
